@@ -146,6 +146,9 @@ type c12Dec struct {
 	DmgPos   int         `json:"dmgPos"`
 	Delivery hx.Delivery `json:"delivery"`
 	Plan     []int       `json:"plan"`
+	// Between: another file is opened and decrypted between Decrypt returning
+	// and the first Read of this one (the caller's business, not the source's)
+	Between bool `json:"between,omitempty"`
 }
 
 func errClass(err error) string {
@@ -200,7 +203,7 @@ func c12File(c c12Dec) ([]byte, []byte) {
 
 // c12Read decrypts under a schedule; it returns released bytes, the error
 // class and (for counting sources) a streaming violation.
-func c12Read(file []byte, c c12Dec, d hx.Delivery, plan []int, hdrLen int) ([]byte, string, error, error) {
+func c12Read(file []byte, c c12Dec, d hx.Delivery, plan []int, hdrLen int, between bool) ([]byte, string, error, error) {
 	p := hx.ThePool()
 	src, counter := hx.NewReader(file, d)
 	var in io.Reader = src
@@ -213,6 +216,13 @@ func c12Read(file []byte, c c12Dec, d hx.Delivery, plan []int, hdrLen int) ([]by
 			return nil, "", nil, pbt.Failf("C12/reader-with-error", "Decrypt returned a reader and an error")
 		}
 		return nil, errClass(err), err, nil
+	}
+	if between {
+		of, oplain := c02Base(300, c.Seed+1000)
+		got, oerr, _ := decryptLib(of.Bytes(), hx.Delivery{Mode: "whole"}, []int{4096}, false, p.X25519Identity(0))
+		if oerr != nil || !bytes.Equal(got, oplain) {
+			return nil, "", nil, pbt.Failf("C12/harness", "the file decrypted in between failed: %v", oerr)
+		}
 	}
 	var out []byte
 	var streamVio error
@@ -289,10 +299,10 @@ func c12CheckDec(c c12Dec, st *stats.Run) error {
 	hdrLen := len(f.Header.Marshal())
 	damaged := c.Damage.Kind != "none" || (c.Armor && c.ArmorDmg != "" && c.ArmorDmg != "trailing-ws-short")
 	differs := c.Delivery.Mode != "whole" || !(len(c.Plan) == 1 && c.Plan[0] == 4096)
-	st.Case(chunksOf(c.PlainLen) >= 2 && differs, stats.HashJSON(c), "dec", "dec:"+chunkLabel(c.PlainLen), "dec:delivery="+c.Delivery.Mode, fmt.Sprintf("dec:damaged=%v", damaged), fmt.Sprintf("dec:armor=%v", c.Armor), "dec:damage="+c.Damage.Kind+"/"+c.ArmorDmg)
+	st.Case(chunksOf(c.PlainLen) >= 2 && differs, stats.HashJSON(c), "dec", "dec:"+chunkLabel(c.PlainLen), "dec:delivery="+c.Delivery.Mode, fmt.Sprintf("dec:damaged=%v", damaged), fmt.Sprintf("dec:armor=%v", c.Armor), "dec:damage="+c.Damage.Kind+"/"+c.ArmorDmg, fmt.Sprintf("dec:other-file-in-between=%v", c.Between))
 	st.Sample("decrypt/"+c.Delivery.Mode+fmt.Sprintf("/damaged=%v", damaged), c)
-	refOut, refClass, refErr, _ := c12Read(file, c, hx.Delivery{Mode: "whole"}, []int{4096}, hdrLen)
-	out, class, err, streamVio := c12Read(file, c, c.Delivery, c.Plan, hdrLen)
+	refOut, refClass, refErr, _ := c12Read(file, c, hx.Delivery{Mode: "whole"}, []int{4096}, hdrLen, false)
+	out, class, err, streamVio := c12Read(file, c, c.Delivery, c.Plan, hdrLen, c.Between)
 	if streamVio != nil {
 		return streamVio
 	}
@@ -434,7 +444,15 @@ func TestC12(t *testing.T) {
 				}
 			}
 		}
-		s.St.Exhaust("armored files with trailing damage x piecewise deliveries; binary boundary files x {valid, extended, truncated} x data+EOF deliveries x read modes", int64(n))
+		for _, l := range []int{0, 100, 3000, chunk + 1} {
+			for _, d := range []hx.Delivery{{Mode: "whole"}, {Mode: "dataeof"}, {Mode: "one"}, {Mode: "bufio", BufSize: 16}} {
+				for _, armored := range []bool{false, true} {
+					yield(c12Dec{PlainLen: l, Seed: 4, Armor: armored, Damage: c02Edit{Kind: "none"}, Delivery: d, Plan: []int{4096}, Between: true})
+					n++
+				}
+			}
+		}
+		s.St.Exhaust("armored files with trailing damage x piecewise deliveries; another file decrypted between Decrypt and the first Read x 4 deliveries; binary boundary files x {valid, extended, truncated} x data+EOF deliveries x read modes", int64(n))
 	}, dec)
 
 	pbt.Rapid(s, "decrypt-schedule", s.N(1500, 8000), func(t *rapid.T) c12Dec {
@@ -442,6 +460,7 @@ func TestC12(t *testing.T) {
 		if rapid.Bool().Draw(t, "multi") {
 			c.PlainLen = rapid.SampledFrom([]int{chunk, chunk + 1, 2 * chunk, 2*chunk + 1, 150000}).Draw(t, "multiLen")
 		}
+		c.Between = rapid.IntRange(0, 3).Draw(t, "between") == 0
 		c.Armor = rapid.IntRange(0, 2).Draw(t, "armor") == 0
 		c.CRLF = c.Armor && rapid.IntRange(0, 3).Draw(t, "crlf") == 0
 		if rapid.Bool().Draw(t, "damaged") {
